@@ -54,6 +54,13 @@ func snap(v reflect.Value, depth int) any {
 		return "<too deep>"
 	}
 	t := v.Type()
+	if t.Kind() == reflect.Struct && t.PkgPath() != "" {
+		for _, std := range []reflect.Type{tURL, tTime, tAddr} {
+			if t != std && sameShape(t, std) && t.ConvertibleTo(std) {
+				return snap(v.Convert(std), depth)
+			}
+		}
+	}
 	switch t {
 	case tTime:
 		return STime{v.Interface().(time.Time)}
